@@ -131,10 +131,21 @@ pub fn plan(property: &str, tier: Tier) -> Option<Plan> {
             jobs.push(g("c01/reobserve", "rel", if q { 8 } else { 12 }).armed(&a));
             jobs.push(g("c01/reobserve2", "rel", if q { 9 } else { 12 }).armed(&a));
             jobs.push(g("c01/catalogue", "dbg", if q { 5 } else { 7 }).armed(&a));
+            jobs.push(g("shapes/binds", "rel", if q { 6 } else { 8 }).armed(&a));
+            if !q {
+                jobs.push(g("c01/grammar3-maps", "rel", 6).armed(&a));
+                jobs.push(g("c01/grammar3-binds", "rel", 6).armed(&a));
+            }
             ("model_checking", mc_rule, vec!["value domain {0,1,2}", "programs of <= 7 nodes", "<= 2 simultaneous observers", "node functions pure, cutoffs equality-like (the property's proviso)"], if q { 45 } else { 1500 })
         }
         "C02" => {
             let a = ["C02"];
+            jobs.push(g("shapes/binds", "rel", if q { 6 } else { 8 }).armed(&a));
+            jobs.push(g("shapes/binds", "dbg", if q { 5 } else { 7 }).armed(&a));
+            if !q {
+                jobs.push(g("c01/grammar3-maps", "rel", 6).armed(&a));
+                jobs.push(g("c01/grammar3-binds", "rel", 6).armed(&a));
+            }
             jobs.push(g("c01/catalogue", "rel", if q { 6 } else { 9 }).armed(&a).congruence(if q { 2 } else { 3 }));
             jobs.push(g("c01/grammar1", "rel", if q { 6 } else { 9 }).armed(&a));
             jobs.push(g(if q { "c01/grammar2-repr" } else { "c01/grammar2" }, "rel", if q { 5 } else { 7 }).armed(&a));
@@ -144,6 +155,12 @@ pub fn plan(property: &str, tier: Tier) -> Option<Plan> {
         }
         "C03" => {
             let a = ["C03"];
+            jobs.push(g("c03/nested", "rel", if q { 6 } else { 9 }).armed(&a));
+            jobs.push(g("shapes/binds", "rel", if q { 6 } else { 8 }).armed(&a));
+            jobs.push(g("c03/nested", "dbg", if q { 5 } else { 7 }).armed(&a));
+            if !q {
+                jobs.push(g("c01/grammar3-binds", "rel", 6).armed(&a));
+            }
             jobs.push(g("c03/inner", "rel", if q { 4 } else { 7 }).armed(&a));
             jobs.push(g("c03/stale_rhs", "rel", if q { 6 } else { 9 }).armed(&a));
             jobs.push(g("c01/catalogue", "rel", if q { 6 } else { 9 }).armed(&a));
@@ -159,6 +176,9 @@ pub fn plan(property: &str, tier: Tier) -> Option<Plan> {
                 jobs.push(g(if q { "c01/grammar2-repr" } else { "c01/grammar2" }, prof, if q { 4 } else { 6 }).armed(&a));
                 jobs.push(g("c03/inner", prof, if q { 3 } else { 6 }).armed(&a));
                 jobs.push(g("c03/stale_rhs", prof, if q { 5 } else { 8 }).armed(&a));
+                jobs.push(g("c03/nested", prof, if q { 5 } else { 8 }).armed(&a));
+                jobs.push(g("shapes/binds", prof, if q { 5 } else { 7 }).armed(&a));
+                jobs.push(g("c09/self_unsub", prof, if q { 5 } else { 8 }).armed(&a));
                 jobs.push(g("c05/clones", prof, if q { 5 } else { 7 }).armed(&a));
                 jobs.push(g("c06/cutoffs", prof, if q { 4 } else { 6 }).armed(&a));
                 jobs.push(g("c09/subs", prof, if q { 5 } else { 8 }).armed(&a).order(Some(true)));
@@ -169,6 +189,10 @@ pub fn plan(property: &str, tier: Tier) -> Option<Plan> {
         }
         "C05" => {
             let a = ["C05"];
+            jobs.push(g("shapes/binds", "rel", if q { 6 } else { 8 }).armed(&a));
+            if !q {
+                jobs.push(g("c01/grammar3-binds", "rel", 6).armed(&a));
+            }
             jobs.push(g("c05/clones", "rel", if q { 6 } else { 9 }).armed(&a));
             jobs.push(g("c01/catalogue", "rel", if q { 6 } else { 9 }).armed(&a));
             jobs.push(g(if q { "c01/grammar2-repr" } else { "c01/grammar2" }, "rel", if q { 5 } else { 7 }).armed(&a));
@@ -182,6 +206,7 @@ pub fn plan(property: &str, tier: Tier) -> Option<Plan> {
             jobs.push(g("c01/catalogue", "rel", if q { 6 } else { 8 }).armed(&a));
             jobs.push(g("c01/grammar1", "rel", if q { 6 } else { 8 }).armed(&a));
             jobs.push(g("c01/reobserve2", "rel", if q { 8 } else { 11 }).armed(&a));
+            jobs.push(g("shapes/binds", "rel", if q { 6 } else { 8 }).armed(&a));
             jobs.push(g("c06/cutoffs", "dbg", if q { 4 } else { 7 }).armed(&a));
             ("model_checking", mc_rule, vec!["expert nodes excluded (as the property states)", "depend_on and map_ref-over-map_with_old outputs are not judged for exact re-invocation (DESIGN §6 C06)"], if q { 45 } else { 1500 })
         }
@@ -201,7 +226,13 @@ pub fn plan(property: &str, tier: Tier) -> Option<Plan> {
                 j.split_first = true;
                 jobs.push(j);
             }
+            let mut j = g("c10/focus", "rel", if q { 9 } else { 12 }).armed(&a);
+            j.split_first = true;
+            jobs.push(j);
             jobs.push(g("c03/inner", "rel", if q { 4 } else { 6 }).armed(&a));
+            jobs.push(g("c03/nested", "rel", if q { 6 } else { 8 }).armed(&a));
+            jobs.push(g("c09/self_unsub", "rel", if q { 6 } else { 9 }).armed(&a));
+            jobs.push(g("c09/self_unsub", "dbg", if q { 5 } else { 7 }).armed(&a));
             jobs.push(g("c07/reads", "rel", if q { 5 } else { 7 }).armed(&a));
             let mut j = g("c09/subs", "dbg", if q { 5 } else { 7 }).armed(&a);
             j.split_first = true;
@@ -216,6 +247,10 @@ pub fn plan(property: &str, tier: Tier) -> Option<Plan> {
                 jobs.push(j);
             }
             jobs.push(g("c05/clones", "rel", if q { 5 } else { 8 }).armed(&a));
+            let mut j = g("c10/focus", "rel", if q { 9 } else { 12 }).armed(&a);
+            j.split_first = true;
+            jobs.push(j);
+            jobs.push(g("c10/differential", "rel", if q { 8 } else { 10 }).armed(&a));
             let mut j = g("c09/subs", "dbg", if q { 5 } else { 7 }).armed(&a);
             j.split_first = true;
             jobs.push(j);
@@ -233,7 +268,188 @@ pub fn plan(property: &str, tier: Tier) -> Option<Plan> {
             jobs.push(j);
             jobs.push(g("c01/catalogue", "dbg", if q { 4 } else { 6 }).armed(&a));
             jobs.push(g("c11/on_update", "dbg", if q { 4 } else { 6 }).armed(&a));
+            let mut j = g("c10/focus", "rel", if q { 8 } else { 10 }).armed(&a);
+            j.split_first = true;
+            jobs.push(j);
+            jobs.push(g("shapes/binds", "rel", if q { 5 } else { 7 }).armed(&a));
+            // the same audit after every action of the expert / incremental-map / variable worlds
+            jobs.push(JobDef::new("expert", "all", "rel", if q { 7 } else { 9 }).armed(&a));
+            jobs.push(JobDef::new("expert", "all", "dbg", if q { 6 } else { 8 }).armed(&a));
+            jobs.push(JobDef::new("pkmaps", "c16/all-k2", "rel", if q { 4 } else { 6 }).armed(&a));
+            jobs.push(JobDef::new("maps", "c15/core", "rel", if q { 4 } else { 6 }).armed(&a));
+            jobs.push(JobDef::new("vars", "c08/dropped", "rel", if q { 5 } else { 7 }).armed(&a));
             ("model_checking", mc_rule, vec!["audit = hook H1 verif_audit (port of the upstream invariant walkers), run after every single action", "only rules restating a clause of the property decide (DESIGN Appendix B)"], if q { 45 } else { 1500 })
+        }
+        "C08" => {
+            let a = ["C08"];
+            let w = |family: &str, profile: &'static str, depth: usize| JobDef::new("vars", family, profile, depth).armed(&a);
+            if q {
+                jobs.push(w("c08/outside", "rel", 8));
+                jobs.push(w("c08/node", "rel", 6));
+                jobs.push(w("c08/handler", "rel", 6));
+                jobs.push(w("c08/selffeed", "rel", 6));
+                jobs.push(w("c08/dropped", "rel", 7));
+                jobs.push(w("c08/outside", "dbg", 8));
+                jobs.push(w("c08/node", "dbg", 5));
+                jobs.push(w("c08/handler", "dbg", 5));
+                jobs.push(w("c08/selffeed", "dbg", 5));
+                jobs.push(w("c08/dropped", "dbg", 6));
+            } else {
+                jobs.push(w("c08/outside-full", "rel", 8));
+                jobs.push(w("c08/node", "rel", 7));
+                jobs.push(w("c08/handler", "rel", 7));
+                jobs.push(w("c08/selffeed", "rel", 8));
+                jobs.push(w("c08/dropped", "rel", 8));
+                jobs.push(w("c08/node-full", "rel", 5));
+                jobs.push(w("c08/handler-full", "rel", 5));
+                jobs.push(w("c08/selffeed-full", "rel", 5));
+                jobs.push(w("c08/dropped-full", "rel", 6));
+                jobs.push(w("c08/outside-full", "dbg", 8));
+                jobs.push(w("c08/node", "dbg", 6));
+                jobs.push(w("c08/handler", "dbg", 6));
+                jobs.push(w("c08/selffeed", "dbg", 6));
+                jobs.push(w("c08/dropped", "dbg", 7));
+            }
+            ("model_checking", "every write script (all sequences of <= 3 of the five write operations; thorough: <= 4) issued from a node function, a bind closure, an update handler or outside, on observed and unobserved variables, combined with every history of {trigger, outside write, observe readers, flip, stabilise, stabilise-until-stable} up to the depth bound; states merged on engine dump + variable model", vec!["variable type i32, constants {5,6}", "get/replace return values inside node functions are not judged (the property makes no claim)"], if q { 45 } else { 1500 })
+        }
+        "C12" => {
+            let a = ["C12"];
+            let w = |family: &str, profile: &'static str, depth: usize| JobDef::new("drops", family, profile, depth).armed(&a).no_prune();
+            if q {
+                jobs.push(w("c12/catalogue", "rel", 12));
+                jobs.push(w("c12/catalogue", "dbg", 12));
+            } else {
+                jobs.push(w("c12/catalogue-full", "rel", 14));
+                jobs.push(w("c12/catalogue-full", "dbg", 14));
+                let mut j = w("c12/catalogue-7", "rel", 16);
+                j.max_states = 20_000_000;
+                jobs.push(j);
+            }
+            ("model_checking", "16 graph shapes x 3 initial conditions: ALL permutations of dropping the user handles and the state, with a stabilise inserted or not after each drop (unpruned enumeration, E1); leak oracles at the two moments the property names", vec!["<= 5 droppable handles per shape (thorough: 6-7)", "leaks are detected through drop flags in closures, a counted value type and WeakIncr::strong_count"], if q { 40 } else { 1500 })
+        }
+        "C15" | "C17" => {
+            let me: &'static str = if property == "C15" { "C15" } else { "C17" };
+            let a = [me];
+            let w = |family: &str, profile: &'static str, depth: usize| JobDef::new("maps", family, profile, depth).armed(&a);
+            if q {
+                jobs.push(w("c15/rounds-single", "rel", 3).no_prune());
+                jobs.push(w("c15/single", "rel", 7));
+                jobs.push(w("c15/merge", "rel", 6));
+                jobs.push(w("c15/rounds-merge", "rel", 2).no_prune());
+                jobs.push(w("c15/single", "dbg", 4));
+                jobs.push(w("c15/rounds-single-k2", "dbg", 3).no_prune());
+            } else {
+                jobs.push(w("c15/single", "rel", 16));
+                jobs.push(w("c15/rounds-single", "rel", 3).no_prune());
+                let mut j = w("c15/rounds-core", "rel", 4).no_prune();
+                j.split_first = true;
+                jobs.push(j);
+                let mut j = w("c15/merge", "rel", 8);
+                j.split_first = true;
+                jobs.push(j);
+                let mut j = w("c15/rounds-merge", "rel", 3).no_prune();
+                j.split_first = true;
+                jobs.push(j);
+                jobs.push(w("c15/rounds-merge-k1", "rel", 5).no_prune());
+                jobs.push(w("c15/single-k4", "rel", 6));
+                jobs.push(w("c15/single", "dbg", 7));
+                jobs.push(w("c15/rounds-single", "dbg", 3).no_prune());
+            }
+            if me == "C17" {
+                // the per-key graph operators' part of C17 is judged in the pkmaps world
+                let pk = |family: &str, profile: &'static str, depth: usize| JobDef::new("pkmaps", family, profile, depth).armed(&a);
+                if q {
+                    jobs.push(pk("c16/all-k2", "rel", 5));
+                    jobs.push(pk("c16/all-k3", "rel", 3));
+                } else {
+                    jobs.push(pk("c16/all-k2", "rel", 7));
+                    jobs.push(pk("c16/all-k3", "rel", 5));
+                }
+            }
+            ("model_checking", "every operator x map type: (a) all histories of {set input to any of the 3^K maps, toggle observer, stabilise} to the depth bound, pruned on engine dump + model; (b) unpruned round-structured histories (each round: optional observer toggle, every input set to any map, stabilise) so that state hidden in operator closures cannot be merged away", vec!["keys 0..K (K=3; merge K=2), values {1,2}", "reference = plain BTreeMap computations (R5)"], if q { 45 } else { 1500 })
+        }
+        "C14" => {
+            let a = ["C14"];
+            let w = |family: &str, profile: &'static str, depth: usize| JobDef::new("expert", family, profile, depth).armed(&a).congruence(2);
+            if q {
+                jobs.push(w("sum", "rel", 8));
+                jobs.push(w("join", "rel", 9));
+                jobs.push(w("bind", "rel", 9));
+                jobs.push(w("sum", "dbg", 7));
+                jobs.push(w("join", "dbg", 8));
+                jobs.push(w("bind", "dbg", 8));
+            } else {
+                jobs.push(w("sum", "rel", 10));
+                jobs.push(w("join", "rel", 11));
+                jobs.push(w("bind", "rel", 11));
+                let mut j = w("wide", "rel", 7);
+                j.split_first = true;
+                jobs.push(j);
+                jobs.push(w("sum", "dbg", 9));
+                jobs.push(w("join", "dbg", 10));
+                jobs.push(w("bind", "dbg", 10));
+            }
+            ("model_checking", "expert-API constructions built in the harness (join, bind, dynamic sum with duplicate dependencies and invalidatable children): all histories of {set selector / multiplicities, set inner vars, toggle the regular bind, observe / un-observe the node and its dependant, make_stale, invalidate, stabilise} to the depth bound; states merged on engine dump + per-edge slots + model (congruence self-check)", vec!["expert nodes are mutated only from the function of one of their children (the documented rule)", "extra edge callbacks are not judged, only missing / stale ones"], if q { 45 } else { 1500 })
+        }
+        "C16" => {
+            let a = ["C16"];
+            let pk = |family: &str, profile: &'static str, depth: usize| JobDef::new("pkmaps", family, profile, depth).armed(&a);
+            if q {
+                jobs.push(pk("c16/all-k2", "rel", 6));
+                jobs.push(pk("c16/all-k3", "rel", 4));
+                jobs.push(pk("c16/all-k2", "dbg", 5));
+            } else {
+                jobs.push(pk("c16/all-k2", "rel", 8));
+                jobs.push(pk("c16/all-k3", "rel", 6));
+                jobs.push(pk("c16/all-k2", "dbg", 7));
+            }
+            ("model_checking", "incr_mapi_ / incr_filter_mapi_ / _cutoff variants on BTreeMap and OrdMap x 9 per-key user-function variants (pure map, identity, map2 with an outer var, bind on the value choosing existing / building fresh nodes, functions ignoring their input, one shared node for all keys): all histories of {set map to any of the 3^K maps, set outer var, toggle observer, stabilise} to the depth bound; states merged on engine dump + model + key->node table (validated by the congruence self-check and against an unpruned run)", vec!["K=2 (9 maps) and K=3 (27 maps), values {1,2}, outer var in {0,1,2}"], if q { 45 } else { 1500 })
+        }
+        "C18" => {
+            let a = ["C18"];
+            let w = |family: &str, profile: &'static str, size: usize| JobDef::new("maps", family, profile, size).armed(&a).no_prune();
+            let (k_pairs, k_quads, n_big) = if q { (5, 3, 100) } else { (7, 4, 300) };
+            for f in ["c18/pairs-bt", "c18/pairs-rc", "c18/pairs-om", "c18/pairs-om-shared"] {
+                jobs.push(w(f, "rel", k_pairs));
+            }
+            for f in ["c18/merge-quads-bt", "c18/merge-quads-om", "c18/merge-quads-om-shared"] {
+                jobs.push(w(f, "rel", k_quads));
+            }
+            jobs.push(w("c18/big-om", "rel", n_big));
+            jobs.push(w("c18/pairs-bt", "dbg", if q { 4 } else { 6 }));
+            jobs.push(w("c18/pairs-om", "dbg", if q { 4 } else { 6 }));
+            ("exploration", "exhaustive input enumeration (E4): ALL ordered pairs of maps over K keys x 2 values through the public symmetric_fold of each map type (with and without structure sharing), ALL quadruples (old/new left, old/new right) through a real incr_merge graph judged on the merge function's call log, plus a structured enumeration of single-edit pairs on multi-node OrdMaps; a case is one pair/quadruple, distinct_nontrivial counts distinct cases", vec!["the 'randomly over larger ones' clause of the quantifier is not addressed (sampling is a different technique)"], if q { 40 } else { 1500 })
+        }
+        "C19" => {
+            let a = ["C19"];
+            let t = if q { "" } else { "+thorough" };
+            let w = |family: &str, profile: &'static str, depth: usize| JobDef::new("limits", &format!("{family}{t}"), profile, depth).armed(&a);
+            for prof in ["rel", "dbg"] {
+                jobs.push(w("height/ctor", prof, 6));
+                jobs.push(w("height/default", prof, 6));
+                jobs.push(w("misuse/cycle-small", prof, if q { 6 } else { 7 }));
+                jobs.push(w("misuse/cycle-4", prof, if q { 4 } else { 6 }));
+                jobs.push(w("misuse/cross", prof, if q { 5 } else { 6 }));
+                jobs.push(w("misuse/nested", prof, if q { 5 } else { 6 }));
+            }
+            ("model_checking", "limited state vs. an unlimited twin (the needed height is read from the twin through hook H1, no height convention baked in): N in 1..6 (thorough 10), set_max_height_allowed(M) with M in 1..8 (12) at every quiescent point of build / observe / stabilise / grow / shrink histories over map chains and bind nests whose heights land around N; all grammar-enumerated programs of <= 4 nodes closing a cycle through 1-2 binds, returning a foreign-state node, or calling stabilise from a node function / update handler; drop of all handles in 4 orders after every expected panic; both debug-assertion configurations", vec!["a height above the limit that is needed only transiently within one stabilise is unjudged", "shrinking below a height that was seen but is no longer in use is unjudged", "hangs / stack overflows are attributed by the supervisor's watchdog and marker file"], if q { 50 } else { 1500 })
+        }
+        "C20" => {
+            let a = ["C20"];
+            let w = |family: &str, profile: &'static str, depth: usize| {
+                let mut j = JobDef::new("memo", family, profile, depth).armed(&a);
+                j.split_first = true;
+                j
+            };
+            for prof in ["rel", "dbg"] {
+                let d = |quick: usize, thorough: usize| if q { quick } else { thorough };
+                jobs.push(w("memo/top", prof, d(9, 11)));
+                jobs.push(w("memo/bind1", prof, d(8, 9)));
+                jobs.push(w("memo/bind2", prof, d(6, 7)));
+                jobs.push(w("memo/nested", prof, d(7, 8)));
+                jobs.push(w("memo/nested+bind", prof, d(6, 7)));
+            }
+            ("model_checking", "weak_memoize_fn called at top level and from inside (nested) bind closures: all histories of {call memo(k) at top level, set bind vars (re-running closures that call memo), set the base var, observe / drop returned nodes, drop observers, drop binds, stabilise}, k in {0,1}, to the depth bound; states merged on engine dump + the harness's mirror of the memo table", vec!["'same node' is judged only when the harness itself still holds the previous result; 'function invoked again' only when nothing can reference the key during one complete stabilise; other calls are unjudged and the model follows the engine"], if q { 45 } else { 1500 })
         }
         "C13" => {
             let a = ["C13"];
